@@ -2,9 +2,9 @@ import PsVerif.Model.Admit
 /-
 C11  Incoming requests are admitted only when every policy condition holds.
 
-Model: `admit` (the pre-checks of OnSwap{In,Out}RequestReceived, message validation, lockSwap,
+Model: `admission` (the pre-checks of OnSwap{In,Out}RequestReceived, message validation, lockSwap,
 CheckRequestWrapperAction, the balance check of CreateSwapOutFromRequestAction) as one decision function.
-Tie: differential slice `admit` (requests × configurations through the real service with the real
+Tie: differential slice `admission` (requests × configurations through the real service with the real
 premium.Setting; the answer sent to the peer is compared).
 -/
 namespace PsVerif.Props.C11
@@ -12,7 +12,7 @@ open PsVerif PsVerif.Model PsVerif.Gen
 
 /-- soundness: an agreement is produced only if every condition holds (the two amount conditions are
     on `amount*1000` as the code computes it, i.e. modulo 2^64 — see `C11_partial_no_wrap`) -/
-theorem C11_sound (c : NodeCfg) (r : Request) (p : Int) (h : admit c r = .agreement p) :
+theorem C11_sound (c : NodeCfg) (r : Request) (p : Int) (h : admission c r = .agreement p) :
     c.allowNew = true ∧ validRequest r = true ∧
     (reqChain r = .lbtc → c.lbtcEnabled = true) ∧ (reqChain r = .btc → c.btcEnabled = true) ∧
     (r.asset ≠ "" → r.asset = c.walletAsset) ∧ (r.network ≠ "" → r.network = c.walletNetwork) ∧
@@ -21,7 +21,7 @@ theorem C11_sound (c : NodeCfg) (r : Request) (p : Int) (h : admit c r = .agreem
     (r.swapOut = true → reqMsat r ≤ c.receivable ∧ wrapU64 (r.amount + c.openingFee) ≤ c.balance) ∧
     (c.acceptAll = true ∨ c.allowlisted = true) ∧ c.suspicious = false ∧ c.channelBusy = false ∧
     p = reqPremium c r ∧ p ≤ r.premiumLimit := by
-  unfold admit at h
+  unfold admission at h
   split at h
   · cases h
   · rename_i hn
@@ -69,8 +69,8 @@ theorem C11_sound (c : NodeCfg) (r : Request) (p : Int) (h : admit c r = .agreem
 /-- completeness: when some condition fails the verdict is a cancel (never an agreement), with the reason
     of the FIRST failing check in source order -/
 theorem C11_complete_cancel (c : NodeCfg) (r : Request) (x : Bool × String)
-    (h : (refusals c r).find? (·.1) = some x) : admit c r = .cancel x.2 := by
-  unfold admit; rw [h]
+    (h : (refusals c r).find? (·.1) = some x) : admission c r = .cancel x.2 := by
+  unfold admission; rw [h]
 
 /-- inside the no-wrap range the two amount conditions are about the real amount -/
 theorem C11_partial_no_wrap (r : Request) (h : r.amount < 18446744073709552) : reqMsat r = r.amount * 1000 := by
